@@ -274,6 +274,13 @@ def grammar_obligations(repo, second_opinion=True, runtime_tests=True, thorough=
                 n_diff += 1
                 if diff is not None and len(sem_fail) < 5:
                     sem_fail.append((text, diff))
+        # large indices and counts (identity vs equality of ints, multi-digit numerals)
+        for N in (10, 99, 100, 256, 257, 300, 1000):
+            for text in (f"C{N}/({N}-{N})", f"C{N}/({N - 1}-{N})({N}-{N - 1})/({N}:mass={N})({N - 1}:rad={N})", f"C{N}/(1-{N + 1})", f"C{N}//({N}:mass=1)({N}:mass=1)"):
+                diff = semantic_differential(text)
+                n_diff += 1
+                if diff is not None and len(sem_fail) < 5:
+                    sem_fail.append((text, diff))
         for wit in base:
             diff = semantic_differential(voc.text(wit))
             n_diff += 1
